@@ -197,6 +197,16 @@ def run(ctx):
                 reqs.append(E.Req(gt, "serbuf", (v, cap)))
     native = [t for t in sess.targets if t.lang != "py"]
     E.run_requests(ctx, sess, drv, "serbuf", reqs, tally, targets=native)
+    # Python owns its buffer (Serializer.new(_EXTENT_BYTES_)): the advertised size must suffice for ANY value, in
+    # particular for values of maximum length (every array at capacity, widest option) and their nested forks.
+    py = [t for t in sess.targets if t.lang == "py"]
+    if py:
+        preqs = []
+        for gt in ns.types:
+            vals = [G.zero_value(gt.expr)] + [E.maximal_value(rng, gt.expr) for _ in range(3 if ctx.quick else 6)] \
+                + [G.gen_value(rng, gt.expr, oob=False) for _ in range(nvals)]
+            preqs += [E.Req(gt, "ser", v) for v in vals]
+        E.run_requests(ctx, sess, drv, "ser-own-buffer", preqs, tally, targets=py)
     ctx.sample({"type": reqs[-1].gt.tstr[:200], "request": reqs[-1].target_line()[:200]})
 
 
